@@ -269,7 +269,13 @@ async fn tcp_info_after_peer_reset() {
 #[tokio::test]
 async fn tcp_accept_through_trait() {
     use crate::info::HasConnectionInfo as _;
-    let mut listener = crate::stream::tcp::TcpListener::bind("127.0.0.1:0").await.unwrap();
+  // both address families: the remembered peer must not depend on the family of the peer's address
+  for bind in ["127.0.0.1:0", "[::1]:0"] {
+    let mut listener = match crate::stream::tcp::TcpListener::bind(bind).await {
+        Ok(l) => l,
+        Err(_) if bind.starts_with('[') => continue, // no IPv6 loopback on this machine
+        Err(e) => panic!("bind {bind}: {e}"),
+    };
     let addr = listener.local_addr().unwrap();
     // nothing to accept: Pending, not an error
     assert!(noop_cx_poll_accept(&mut listener).is_pending(), "an idle listener must answer Pending");
@@ -286,12 +292,13 @@ async fn tcp_accept_through_trait() {
             .expect("accept timed out");
         let stream = r.expect("the listener is intact: the acceptor must not report an error");
         let info = std::panic::catch_unwind(std::panic::AssertUnwindSafe(|| stream.info()));
-        assert!(info.is_ok(), "info() of accepted stream {k} panicked");
-        assert!(stream.peer_addr().is_ok(), "peer_addr() of accepted stream {k} consulted the OS and failed");
+        assert!(info.is_ok(), "info() of accepted stream {k} ({bind}) panicked");
+        assert!(stream.peer_addr().is_ok(), "peer_addr() of accepted stream {k} ({bind}) consulted the OS and failed");
         if k == 1 {
             assert_eq!(stream.peer_addr().unwrap(), live_addr, "the remembered peer address is not the peer's");
         }
     }
+  }
 }
 
 #[cfg(feature = "stream")]
